@@ -139,19 +139,24 @@ def differences(a, b, shift):
     return out
 
 
+def _rk(fmt):
+    """dict workbooks are handed over as an API caller would: text cells verbatim (padding and all), not pre-trimmed by the renderer"""
+    return {"raw": True} if fmt == "dict" else None
+
+
 def compare_steps(ctx, form, sheets, steps, sig, fmt):
     """Compare after the full composition; on a difference, walk the recorded steps to find the first culprit."""
     tsheets, done, shift = steps[-1]
-    a = drive.convert_sheets(sheets, fmt=fmt, args=form.args)
+    a = drive.convert_sheets(sheets, fmt=fmt, args=form.args, render_kw=_rk(fmt))
     kinds = sorted({d.split(":")[0] for d in done})
     if not a.ok:
         ctx.ctr("rejected_original")
-        b = drive.convert_sheets(tsheets, fmt=fmt, args=form.args)
+        b = drive.convert_sheets(tsheets, fmt=fmt, args=form.args, render_kw=_rk(fmt))
         if b.ok:
             ctx.viol("outcome-differs:original-rejected-transformed-accepted", f"original rejected ({a.brief()}) but transformed accepted; T={done}",
                      _wit(form, done, shift, fmt, tsheets))
         return
-    b = drive.convert_sheets(tsheets, fmt=fmt, args=form.args)
+    b = drive.convert_sheets(tsheets, fmt=fmt, args=form.args, render_kw=_rk(fmt))
     ctx.ctr("pairs_compared")
     ctx.ctr("transformations_applied", len(done))
     for k in kinds:
@@ -162,7 +167,7 @@ def compare_steps(ctx, form, sheets, steps, sig, fmt):
         return
     # locate the first step after which the relation breaks
     for ts, dn, sh in steps:
-        bj = drive.convert_sheets(ts, fmt=fmt, args=form.args)
+        bj = drive.convert_sheets(ts, fmt=fmt, args=form.args, render_kw=_rk(fmt))
         dj = differences(a, bj, sh)
         if dj:
             culprit = ":".join(dn[-1].split(":")[:2])
@@ -179,8 +184,8 @@ def _wit(form, done, shift, fmt, tsheets):
 
 
 def compare(ctx, form, sheets, tsheets, done, shift, sig, fmt):
-    a = drive.convert_sheets(sheets, fmt=fmt, args=form.args)
-    b = drive.convert_sheets(tsheets, fmt=fmt, args=form.args)
+    a = drive.convert_sheets(sheets, fmt=fmt, args=form.args, render_kw=_rk(fmt))
+    b = drive.convert_sheets(tsheets, fmt=fmt, args=form.args, render_kw=_rk(fmt))
     kinds = sorted({d.split(":")[0] for d in done})
     wit = lambda: common.witness(form, transformations=done, shift={k: list(v) for k, v in shift.items()}, fmt=fmt,  # noqa: E731
                                  tsheets={k: [list(h), rows] for k, (h, rows) in tsheets.items()})
@@ -338,7 +343,7 @@ def _column_sweep_over(ctx, form, sheets, only_sheets=None, tag=""):
                 ts = dict(sheets)
                 ts[key] = (hdrs[:ci] + [nb] + hdrs[ci + 1:], rows)
                 for fmt in ("dict", "xlsx"):
-                    b = drive.convert_sheets(ts, fmt=fmt, args=form.args)
+                    b = drive.convert_sheets(ts, fmt=fmt, args=form.args, render_kw=_rk(fmt))
                     ctx.ctr("column_sweep_pairs")
                     ctx.ctr("pairs_compared")
                     ctx.case(sig=f"sweep{tag}|{key}|{h}|{style}|{fmt}")
